@@ -187,6 +187,31 @@ MUTATIONS = [
      "what": "canonicalize short-cuts an empty ordering with len(): one-shot iterables and dict views behave differently",
      "old": "    canonicalizer = Canonicalizer(ensure_ordering(expression, ordering=ordering))",
      "new": "    if ordering is not None and len(ordering) == 0:\n        ordering = None\n    canonicalizer = Canonicalizer(ensure_ordering(expression, ordering=ordering))"},
+    # ---------------------------------------------------------------- LV-DAG conversion / Evans simplification (C16)
+    {"id": "m16_simplify_tag_not_forwarded", "props": ["C16"], "file": LAT,
+     "what": "simplify_latent_dag calls the widow rule without the tag: a DAG tagged under a custom key is read under the default key",
+     "old": "    _, widows = remove_widow_latents(graph, tag=tag)",
+     "new": "    _, widows = remove_widow_latents(graph)"},
+    {"id": "m16_evans_tag_not_forwarded", "props": ["C16"], "file": LAT,
+     "what": "evans_simplify builds the LV-DAG with the default tag and simplifies it under the requested one",
+     "old": "    lv_dag = NxMixedGraph.to_latent_variable_dag(graph, tag=tag)",
+     "new": "    lv_dag = NxMixedGraph.to_latent_variable_dag(graph)"},
+    {"id": "m16_evans_latents_bare_variable", "props": ["C16"], "file": LAT,
+     "what": "evans_simplify copies the extra latents with set(): a bare Variable (allowed by the signature) is rejected",
+     "old": "        latents = _ensure_set(latents)\n        for node, data in lv_dag.nodes(data=True):",
+     "new": "        latents = set(latents)\n        for node, data in lv_dag.nodes(data=True):"},
+    {"id": "m16_evans_latents_validate_then_normalise", "props": ["C16"], "file": LAT,
+     "what": "evans_simplify checks that the extra latents are nodes before _ensure_set: a one-shot iterable is consumed and no node is marked",
+     "old": "        latents = _ensure_set(latents)\n        for node, data in lv_dag.nodes(data=True):",
+     "new": "        if not isinstance(latents, Variable) and any(node not in lv_dag for node in latents):\n            raise KeyError(\"latent is not a node\")\n        latents = _ensure_set(latents)\n        for node, data in lv_dag.nodes(data=True):"},
+    {"id": "m16_from_lv_tag_keyword_only", "props": ["C16"], "file": G,
+     "what": "from_latent_variable_dag makes tag keyword-only (positional callers break)",
+     "old": "    def from_latent_variable_dag(cls, graph: nx.DiGraph, tag: str | None = None) -> NxMixedGraph:",
+     "new": "    def from_latent_variable_dag(cls, graph: nx.DiGraph, *, tag: str | None = None) -> NxMixedGraph:"},
+    {"id": "m16_to_lv_tag_none_not_defaulted", "props": ["C16"], "file": G,
+     "what": "_latent_dag only fills in the default tag when the argument is falsy-or-missing via `tag = tag or DEFAULT_TAG` AFTER labelling the observed nodes (an explicit tag=None labels them under the key None)",
+     "old": "    if tag is None:\n        tag = DEFAULT_TAG\n    if prefix is None:\n        prefix = DEFULT_PREFIX\n\n    bi_edges_list = list(bi_edges)\n\n    rv = nx.DiGraph()\n    rv.add_nodes_from(nodes or ())\n    rv.add_nodes_from(itt.chain.from_iterable(bi_edges_list))\n    rv.add_edges_from(di_edges)\n    nx.set_node_attributes(rv, False, tag)",
+     "new": "    if prefix is None:\n        prefix = DEFULT_PREFIX\n\n    bi_edges_list = list(bi_edges)\n\n    rv = nx.DiGraph()\n    rv.add_nodes_from(nodes or ())\n    rv.add_nodes_from(itt.chain.from_iterable(bi_edges_list))\n    rv.add_edges_from(di_edges)\n    nx.set_node_attributes(rv, False, tag)\n    if tag is None:\n        tag = DEFAULT_TAG"},
 ]
 
 
